@@ -1251,7 +1251,7 @@ class SimplicialComplex:
         :returns: the flag complex"""
 
         # start with a copy of ourselves
-        flag = copy.copy(self)
+        flag = self.copy()
 
         # we work from the bottom with all 1-simplices
         nss = dict()
